@@ -10,7 +10,7 @@ RULE = ("honest statements (N<=3 on p=23/2039/16-bit, N<=2 at 62 bits, N=1 at 20
         "every per-ciphertext component altered one at a time at N in {20,37} (thorough: up to 130) on the 62-bit set; mismatched |e'|, N=0, and the algebraic forgery family with omitted chain proofs (non-permutation matrix M=[[2,-1],[-1,2]]); "
         "every decision compared with the Gallina verifier, which recomputes both challenges from the complete statement; "
         "at >=62 bits an accepted mutant is a failing input by itself"
-        " Added in session 3: pairs of alterations that cancel in a product/sum of the per-ciphertext equations; one Shuffler value over a sequence of statements; an accepted proof offered again under another key / other generators in the same process;")
+        " Added in session 3: pairs of alterations that cancel in a product/sum of the per-ciphertext equations; one Shuffler value over a sequence of statements; an accepted proof offered again under another key / other generators in the same process; long statements (N = 300 / 263 at 62 bits; thorough also 520 / 1030): an honest proof built by the Python prover from the implementation's own challenges is also decided by the Gallina verifier, and whenever two per-ciphertext challenges coincide a factor is shifted between those two outputs (a non-permutation that must be rejected);")
 
 
 def forge_no_chain(ctx, sp, r):
@@ -209,6 +209,30 @@ def run(env):
                     if mode == "honest":
                         c["tag"] = "honest"
                     cases.append(c)
+    # long statements (N beyond any block size of a batched challenge derivation): an honest proof built from the implementation's
+    # own challenges must also be accepted by the Gallina verifier (which recomputes them), and whenever two per-ciphertext
+    # challenges coincide the prover shifts a factor X between those two outputs - a non-permutation the verifier must reject
+    for fl, N in (("B", 300), ("M", 263)) if env.quick else (("B", 300), ("M", 263), ("B", 520), ("M", 1030)):
+        ctx = "%s:%d" % (fl, P62); P_, q_, g_ = pq(ctx)
+        gens = env.harness([{"ctx": ctx, "op": "generators", "args": [str(N + 1), "x:"], "tag": "forger"}])[0]
+        pk = str(pow(g_, 7, P_)); es = [[str(rnd_member(r, ctx)), str(rnd_member(r, ctx))] for _ in range(N)]
+        perm = list(range(N)); r.shuffle(perm)
+        st_ = r.getstate(); inf = {}
+        out_j, pfb = twprover.build(env, ctx, pk, gens, es, "x:67", perm, r, info=inf)
+        if pfb is not None:
+            cases.append({"ctx": ctx, "op": "check_proof", "args": [pk, gens, pfb, es, out_j, "x:67"], "tag": "honest", "_sp": ctx})
+        seen_u = {}; coll = None
+        for i_, u_ in enumerate(inf.get("us", [])):
+            if u_ in seen_u:
+                coll = (seen_u[u_], i_); break
+            seen_u[u_] = i_
+        if coll is not None:
+            a_ = perm.index(coll[0]); b_ = perm.index(coll[1])
+            r.setstate(st_); inf2 = {}
+            out_t, pft = twprover.build(env, ctx, pk, gens, es, "x:67", perm, r, tamper=(a_, b_, pow(g_, 5, P_)), info=inf2)
+            if pft is not None and inf2["us"][coll[0]] == inf2["us"][coll[1]]:
+                cases.append({"ctx": ctx, "op": "check_proof", "args": [pk, gens, pft, es, out_t, "x:67"], "tag": "forger-colliding-challenges",
+                              "_must_reject": True, "_reject_or_error": True, "_sp": ctx})
     outs = env.harness(cases)
     for c, o in zip(cases, outs):
         if not c.get("_notie"):
